@@ -95,8 +95,8 @@ def run(ctx):
                    "\n".join("OK " + f[2] for f, _ in good), "\n".join(m.split(" | ")[0] for _, m in good))
     shapes = {}
     for f in rows:
-        w = f[4].split()
-        k = " ".join(w[:2]) if w and w[0] == "script" else " ".join(w[:4])
+        w = f[4].split() or ["?"]
+        k = " ".join(w[:2]) if w[0] == "script" else " ".join(w[:4])
         k += " " + w[-1]
         shapes[k] = shapes.get(k, 0) + 1
     nontriv = set(f[2] for f, m in good if " S" in f[2] and "K" in f[2])
